@@ -250,7 +250,7 @@ def get_entries(links, subs=True):
         es += [ent('a', 'dir', sub=[ent('../x', 'file')]),
                ent('b', 'dir', sub=[ent('/x', 'file')])]
     if links:
-        es += [ent('a', 'link', t) for t in ('..', '/T/x', '../..')]
+        es += [ent('a', 'link', t) for t in ('..', '/T/x', '../..', '/T/Dx')]
         es += [ent('b', 'dir', sub=[ent('a', 'link', '/T'), ent('a', 'dir', sub=[])])]
     return es
 
@@ -305,7 +305,7 @@ def main(ctx):
     build_ops = ['mkdir', 'symlink', 'rename', 'posix_rename', 'link']
     build_locs = ['a', 'b', 'a/b', 'a/a', 'b/a']
     build_tgts = ['/', '/a', '..', '../..', 'a', 'b', 'b/..', 'b/../..',
-                  'b/../a', '../a']
+                  'b/../a', '../a', '../Rx', '../U', '../../Rx']
     if quick:
         build = (3, 3, build_ops)
     else:
@@ -323,8 +323,8 @@ def main(ctx):
     # directory in which the relative target is judged)
     spelled = sorted(set(build_locs + [x for p in build_locs
                                        for x in spellings(p)]))
-    sp_tgts = ['..', '../..', '../', './..', '..//..', 'b/..', 'b/../..', 'a',
-               '/', '/a/', '../a', 'b/../a']
+    sp_tgts = ['..', '../..', '../Rx', './..', '..//..', 'b/..', 'b/../..',
+               'a', '/', '../U', '../', '/a/', '../a', 'b/../a', '../../Rx']
     jobs['fs spelled requests'] = lambda: run_mc(
         'PathConfineFS', 'fs_spelled',
         fs_consts(2 if quick else 3, 3, build_ops, rule='strip',
@@ -345,10 +345,15 @@ def main(ctx):
         lambda: run_mc(
             'PathConfineFS', 'fs_realdir',
             fs_consts(4, 3, NOMOVE, rule='strip', rewrite='realdir'),
-            fsdefs(rp + ['a//b/.'], ['..', '../..', '.', 'a', '../a'],
-                   'TreesAll'),
+            fsdefs(rp + ['a//b/.'], ['..', '../..', '.', 'a', '../a', '../Rx',
+                                     '../../Rx', '../U'], 'TreesAll'),
             ['TypeOK', 'AllTouchedUnderRoot'], view=True, workers=W,
             timeout=800)
+    jobs['fs prefix test without separator'] = lambda: run_mc(
+        'PathConfineFS', 'fs_prefix',
+        fs_consts(3, 3, NOMOVE, rule='strip', rewrite='prefix'),
+        fsdefs(['a', 'b', 'a/b'], ['..', '../Rx', '../U', 'a'], 'TreesSmall'),
+        ['AllTouchedUnderRoot'], view=True, workers=2)
     jobs['fs without target rewrite'] = lambda: run_mc(
         'PathConfineFS', 'fs_norw',
         fs_consts(3, 3, NOMOVE, rule='strip', rewrite='none'),
@@ -359,7 +364,7 @@ def main(ctx):
             'PathConfineFS', f'fs_w_{wit}', fs_consts(3, 3, ALLOPS, rule='strip'),
             fsdefs(rp[:4], ['a', '/'], 'TreesAll'), [wit], view=True,
             workers=2))
-    nsim = 80 if quick else 1500
+    nsim = 60 if quick else 1500
     for bias in ('all', 'ok'):
         def sim(bias=bias):
             d = tlc.workdir(f'c13_sim_{bias}_out')
@@ -463,6 +468,7 @@ def main(ctx):
         'map without normpath': 'MapUnderRoot',
         'fs as written': 'AllTouchedUnderRoot',
         'fs without target rewrite': 'AllTouchedUnderRoot',
+        'fs prefix test without separator': 'AllTouchedUnderRoot',
         'fs witness NeverLink': 'NeverLink',
         'fs witness NeverMoved': 'NeverMoved',
         'scp sink without name check': 'AllCreatedUnderDest',
@@ -732,8 +738,26 @@ def tree_from_model(mt):
             if loc[:2] == ('T', 'R')}
 
 
-def conv_req(r):
-    return (r[0], '/'.join(r[1]).encode(), '/'.join(r[2]).encode())
+# the model's outside node "Rx" stands for the class of siblings whose name
+# shares a prefix with the root's; every case that mentions it is materialised
+# towards each member (real names, see path_confine.ROOT_SIBLINGS)
+ROOT_SIBS = ['RRx', 'RR-old', 'R']
+
+
+def conv_req(r, sib=None):
+    def conv(comps):
+        return '/'.join((sib or ROOT_SIBS[0]) if c == 'Rx' else c
+                        for c in comps).encode()
+    return (r[0], conv(r[1]), conv(r[2]))
+
+
+def sib_variants(hist, quick=False):
+    """[None] or the sibling names to materialise a request history with"""
+    if any('Rx' in x[1] or 'Rx' in x[2] for x in hist):
+        if quick and len(hist) >= 3:
+            return [ROOT_SIBS[len(json.dumps(hist)) % 3]]
+        return ROOT_SIBS
+    return [None]
 
 
 def replay_fs(ctx, pc, results, rule, quick):
@@ -785,8 +809,10 @@ def replay_fs(ctx, pc, results, rule, quick):
         ctx.require(len(states) > 50, 'no scripts from TLC')
         states.sort(key=lambda x: (len(x[0]), json.dumps(x[0])))
         nprobe = nlinks = nescaping = 0
-        for hist, it, fs, esc, escset in states:
-            script = [conv_req(x) for x in hist]
+        states = [st + [sib] for st in states
+                  for sib in sib_variants(st[0], quick)]
+        for hist, it, fs, esc, escset, sib in states:
+            script = [conv_req(x, sib) for x in hist]
             init = tree_from_model(pc.model_tree(it))
             want = set((op, '/'.join(p)) for op, p in escset['$set'])
             final = pc.model_tree(fs)
@@ -838,7 +864,7 @@ def replay_fs(ctx, pc, results, rule, quick):
         loops = {json.dumps(x) for x in printed_blocks(res, 'LOOP')}
         for x in sorted(loops)[::3 if quick else 1]:
             hist, it = json.loads(x)
-            script = [conv_req(h) for h in hist]
+            script = [conv_req(h, ROOT_SIBS[nseq % 3]) for h in hist]
             init = tree_from_model(pc.model_tree(it))
             out = pc.run_script(world, init, script, None, set(),
                                 probes=['stat', 'open_r', 'open_w', 'remove'])
@@ -916,7 +942,7 @@ def replay_spelled(ctx, pc, results, quick, found, cache, world3):
     if quick and len(cases) > 1000:
         short = [c for c in cases if len(c[0]) <= 1]
         rest = [c for c in cases if len(c[0]) > 1]
-        cases = short + rest[::len(rest) // 800 + 1]
+        cases = short + rest[::len(rest) // 600 + 1]
     forms = [dict(sftp_version=3), dict(sftp_version=6),
              dict(sftp_version=3, openssh_order=True)]
     n = nprobes = nsusp = 0
@@ -929,7 +955,7 @@ def replay_spelled(ctx, pc, results, quick, found, cache, world3):
                 if quick or not linkreq or len(hist) > 2:
                     if ci % len(forms) != fi:
                         continue        # round robin
-                script = [conv_req(x) for x in hist]
+                script = [conv_req(x, ROOT_SIBS[ci % 3]) for x in hist]
                 init = tree_from_model(pc.model_tree(it))
                 final = pc.model_tree(fs) if modelled else None
                 n += 1
@@ -1100,7 +1126,7 @@ def dl_model_shape(tree_set):
     out = {}
     for loc, kind, t in tree_set:
         loc = tuple(loc)
-        if loc[:1] != ('T',) or loc == ('T',):
+        if loc[:1] != ('T',) or loc in (('T',), ('T', 'Dx')):
             continue
         out[loc] = (kind, '/'.join(t) if kind == 'link' else '')
     return out
@@ -1109,13 +1135,14 @@ def dl_model_shape(tree_set):
 def dl_real_shape(snap, area_top):
     out = {}
     for loc, (kind, data, _ino) in snap.items():
-        if loc in DECOY_LOCS:
+        if loc in DECOY_LOCS or loc[1:2] in SIB_NAMES:
             continue
         out[loc] = (kind, data if kind == 'link' else '')
     return out
 
 
 DECOY_LOCS = {('T', 'secret'), ('T', 'sdir'), ('T', 'sdir', 'inner')}
+SIB_NAMES = {('RRx',), ('RR-old',), ('R~',), ('Dx',), ('D-old',), ('U',)}
 
 
 def replay_mget(ctx, pc, results, quick):
